@@ -31,10 +31,13 @@ def cases(tier):
             for frm, to in SHIFTS:
                 for inp in ("dataset", "none", "other"):
                     out.append(dict(N=N, dimcoords=dimcoords, frm=frm, to=to, inp=inp))
+                # a grid dataset whose only non-dimension coordinates live on the target position
+                out.append(dict(N=N, dimcoords=dimcoords, frm=frm, to=to, inp="none", only_on=POSD[to]))
+                out.append(dict(N=N, dimcoords=dimcoords, frm=frm, to=to, inp="dataset", only_on=POSD[frm]))
     return out
 
 
-def build(W, N, dimcoords):
+def build(W, N, dimcoords, only_on=None):
     sizes = {"xc": N, "xg": N, "xo": N + 1, "xi": N - 1, "yc": 2, "yg": 2, "t": 2}
     coords = {}
     want_dim = {"all": list(sizes), "none": [], "some": ["xc", "xo", "yc"]}[dimcoords]
@@ -43,6 +46,8 @@ def build(W, N, dimcoords):
     ds = xr.Dataset(coords=coords)
     nd = {"scalar_c": (), "lon_c": ("xc",), "lon_g": ("xg",), "lon_o": ("xo",), "lon_i": ("xi",), "lat_c": ("yc",), "area_g": ("yc", "xg"), "area_c": ("yc", "xc"),
           "vol_c": ("t", "yc", "xc"), "tlab": ("t",)}
+    if only_on is not None:
+        nd = {k: v for k, v in nd.items() if only_on in v}
     vals = {}
     for name, dims in nd.items():
         arr = W.data(name, tuple(sizes[d] for d in dims))
@@ -59,7 +64,7 @@ def case(W, cfg):
     N, frm, to = cfg["N"], cfg["frm"], cfg["to"]
     if N == 2 and "inner" in (frm, to) and False:
         return
-    ds, sizes, nd, vals = build(W, N, cfg["dimcoords"])
+    ds, sizes, nd, vals = build(W, N, cfg["dimcoords"], cfg.get("only_on"))
     with warnings.catch_warnings():
         warnings.simplefilter("ignore")
         grid = xgcm.Grid(ds, coords={"X": dict(POSD), "Y": {"center": "yc", "left": "yg"}}, periodic=False, boundary="extend", autoparse_metadata=False)
